@@ -112,7 +112,7 @@ func c13Unit(rng *rand.Rand) (sig, detail, shape string) {
 	interval := time.Duration(1+rng.Intn(3)) * time.Millisecond
 	timeout := time.Hour // cannot have expired: classification stays logical
 	if final == "T" {
-		timeout = time.Duration(2+rng.Intn(4)) * time.Millisecond
+		timeout = time.Duration(20+rng.Intn(20)) * time.Millisecond
 	}
 	parent, cancel := context.WithCancel(context.Background())
 	defer cancel()
@@ -162,7 +162,9 @@ func c13Unit(rng *rand.Rand) (sig, detail, shape string) {
 			return "ping-too-early", fmt.Sprintf("script %v: ping #%d sent %v after KeepAlive was called, interval %v", script, k+1, t.Sub(t0), interval), ""
 		}
 	}
-	if len(sc.times) < len(script) {
+	if final != "T" && len(sc.times) < len(script) {
+		// (T scripts use a small real timeout; on a loaded machine an earlier, answered ping may exceed it,
+		// which legitimately ends KeepAlive with ErrPingTimeout before the script is exhausted)
 		return "ping-missing", fmt.Sprintf("script %v: only %d pings sent", script, len(sc.times)), ""
 	}
 	return "", "", shape
@@ -177,11 +179,17 @@ func c13System(rng *rand.Rand) (sig, detail string, trace []string, shape string
 	if rng.Intn(3) != 0 {
 		silentAt = rng.Intn(n + 1)
 	}
-	if silentAt < 0 {
-		// healthy run: a generous timeout, so that only a response that really never arrives can end
-		// the connection (a small timeout could expire under machine load and legitimately close it)
-		sc.TimeoutMs = 3000
+	if rng.Intn(8) == 0 {
+		// only the ping interval is configured: the library's default timeout (= interval) applies
+		ping, to = 150, 150
+		sc.PingMs, sc.TimeoutMs = ping, -1
+		n = 1
+		if silentAt >= 0 {
+			silentAt = 1
+		}
 	}
+	// (healthy runs keep the small timeout - a generous one would hide a lost PINGRESP until long after the
+	// run; a load-induced expiry is filtered by confirming the verdict on repeated executions, see c13Run)
 	tag := 0
 	for i := 0; i <= n; i++ {
 		if i == silentAt {
@@ -192,10 +200,59 @@ func c13System(rng *rand.Rand) (sig, detail string, trace []string, shape string
 			sc.Steps = append(sc.Steps, scen.Step{Op: "pub", QoS: byte(1 + rng.Intn(2)), Tag: fmt.Sprintf("m%d", tag), Wait: rng.Intn(2) == 0}, scen.Step{Op: "sleep", Ms: ping * (1 + rng.Intn(3))})
 		}
 	}
+	sc.KeepOpen = true
 	run := scen.Exec(&sc)
+	defer run.Finish()
 	tr := run.Tr
 	fail := func(s, f string, a ...interface{}) (string, string, []string, string) {
 		return s, fmt.Sprintf(f, a...) + fmt.Sprintf("\nsteps=%v ping=%dms timeout=%dms", sc.Steps, ping, to), tr.Dump(150), ""
+	}
+	// A PINGREQ dropped late in the silent period times out only after the workload has finished: wait
+	// (logically: until the library closes that connection) before judging.
+	{
+		silentNow := false
+		droppedConn := 0
+		for _, e := range tr.Snapshot() {
+			if e.Kind == memnet.KNote && strings.HasPrefix(e.S, "broker stops answering") {
+				silentNow = true
+			}
+			if e.Kind == memnet.KNote && strings.HasPrefix(e.S, "broker answers PINGREQ again") {
+				silentNow = false
+			}
+			if silentNow && e.Kind == memnet.KWrite && e.OK && e.S == "" && e.Pkt != nil && e.Pkt.Type == mqttref.PINGREQ && droppedConn == 0 {
+				droppedConn = e.Conn
+			}
+		}
+		if droppedConn > 0 {
+			closed := tr.WaitFor(scen.Watchdog, func() bool { return tr.Conns[droppedConn-1].LocalClosed })
+			if !closed {
+				if scen.CertifyStuck(tr, tr.Conns[droppedConn-1]) {
+					return fail("silent-peer-not-detected", "PINGREQ on connection %d was never answered; %v later (timeout %dms) the library still has not closed that connection and nothing moves", droppedConn, scen.Watchdog, to)
+				}
+				return "inconclusive", "dropped ping not yet timed out", nil, ""
+			}
+			// the Closed callback follows the close
+			tr.WaitFor(scen.Watchdog, func() bool {
+				for _, e := range tr.Events {
+					if e.Kind == memnet.KState && e.Conn == droppedConn && e.S == "Closed" {
+						return true
+					}
+				}
+				return false
+			})
+			// and a new connection is established
+			tr.WaitFor(scen.Watchdog, func() bool {
+				for _, e := range tr.Events {
+					if e.Kind == memnet.KDialEnd && e.OK && e.Conn > droppedConn {
+						return true
+					}
+				}
+				return false
+			})
+			tr.Mu.Lock()
+			run.EndSeq = len(tr.Events)
+			tr.Mu.Unlock()
+		}
 	}
 	if run.Stuck {
 		return fail("stalled-after-silence", "the run is certified stuck: no reconnect / retransmission after the broker went silent\n%s", run.GoDump)
@@ -301,7 +358,27 @@ func c13Run(c fw.Case, env *fw.Env) fw.Result {
 		if p.Mode == "unit" {
 			sig, det, shape = c13Unit(sub)
 		} else {
-			sig, det, trc, shape = c13System(sub)
+			seed := rng.Int63()
+			sig, det, trc, shape = c13System(rand.New(rand.NewSource(seed)))
+			if sig == "healthy-connection-closed" {
+				// A small ping timeout can expire on a loaded machine although the response was sent, which
+				// legitimately closes the connection. The verdict stands only if the same scenario does it
+				// three times out of three.
+				confirmed := 1
+				for k := 0; k < 2; k++ {
+					s2, _, _, _ := c13System(rand.New(rand.NewSource(seed)))
+					if s2 == "healthy-connection-closed" {
+						confirmed++
+					}
+				}
+				if confirmed < 3 {
+					r.Counters["load_induced_ping_timeouts_not_confirmed"]++
+					sig, det, trc = "", "", nil
+					shape = "healthy-unconfirmed"
+				} else {
+					det += "\n(confirmed on 3 of 3 executions of the same scenario)"
+				}
+			}
 		}
 		r.Evals++
 		switch sig {
